@@ -39,7 +39,8 @@ def classify(violated, ev, prev):
         keys = [[x["e"], ev["p"], x["proj"], x["sp"], x["ss"]] for x in acc]
         if len({vlib.json.dumps(k) for k in keys}) < len(keys) or any(k in pst.get("unique", []) for k in keys):
             return "session-credited-twice"
-        if len(st["unique"]) != len(pst.get("unique", [])) + len(acc):
+        want = {vlib.json.dumps(k) for k in pst.get("unique", [])} | {vlib.json.dumps(k) for k in keys}
+        if {vlib.json.dumps(k) for k in st["unique"]} != want:
             return "unique-sessions-mismatch"
         return "unattributed-credit"
     return name
